@@ -23,3 +23,95 @@ Proof. vm_compute. reflexivity. Qed.
 Theorem C03_reader_decodes_every_legal_file : forall a, wf_file a ->
   decode_file (sf_dt a) (bits_to_bytes (enc_file a)) = Ok (file_nums a).
 Proof. exact reader_decodes_grammar. Qed.
+
+(* ---- word level: the 64-bit-word reader (Model/Words.v: BitWords::extend_bytes / truncate_left and
+   BitReader::read_one / read / read_diff / unchecked_read_diff / seek / drain_empty_byte /
+   read_aligned_bytes transcribed literally) reads exactly what the bit-list model reads ---- *)
+From QCo.Model Require Import Words.
+From QCo.Lemmas Require Import WordsL.
+
+Theorem C03_word_extend_bytes : forall words tb bytes,
+  bw_ok words tb -> tb mod 8 = 0 -> Forall (fun b => b < 256) bytes ->
+  let '(ws', tb') := bw_extend words tb bytes in
+  tb' = tb + 8 * Nlen bytes /\ bw_ok ws' tb' /\
+  bw_bits ws' tb' = bw_bits words tb ++ bytes_to_bits bytes.
+Proof. exact bw_extend_spec. Qed.
+
+Theorem C03_word_truncate_left : forall words tb k,
+  bw_ok words tb -> 64 * k <= tb ->
+  let '(ws', tb') := bw_truncate_left words tb k in
+  tb' = tb - 64 * k /\ bw_ok ws' tb' /\
+  bw_bits ws' tb' = skipn (N.to_nat (64 * k)) (bw_bits words tb).
+Proof. exact bw_truncate_left_spec. Qed.
+
+Theorem C03_word_read_diff : forall ws tb i j n,
+  words_ok ws -> j <= 64 -> tb <= 64 * Nlen ws -> 64 * i + j <= tb ->
+  match rd_read_diff ws i j tb n with
+  | Ok (v, (i', j')) =>
+      get n (rd_stream ws tb (64 * i + j)) = Ok (v, rd_stream ws tb (64 * i + j + n)) /\
+      64 * i' + j' = 64 * i + j + n /\ j' <= 64
+  | Err k => get n (rd_stream ws tb (64 * i + j)) = Err k
+  | Panic => False
+  end.
+Proof. exact rd_read_diff_spec. Qed.
+
+(* the typed read (truncating at every from_word and shift, as the Rust generic code does for a
+   type of ub bits) equals the unbounded one whenever n <= ub *)
+Theorem C03_word_typed_read : forall ub ws i j n,
+  words_ok ws -> j <= 64 -> 64 * i + j + n <= 64 * Nlen ws -> n <= ub ->
+  rd_unchecked_read_diff_u ub ws i j n = rd_unchecked_read_diff ws i j n.
+Proof. exact rd_unchecked_read_diff_u_spec. Qed.
+
+Theorem C03_word_read_one : forall ws tb i j,
+  words_ok ws -> j <= 64 -> tb <= 64 * Nlen ws -> 64 * i + j <= tb ->
+  match rd_read_one ws i j tb with
+  | Ok (b, (i', j')) =>
+      get1 (rd_stream ws tb (64 * i + j)) = Ok (b, rd_stream ws tb (64 * i + j + 1)) /\
+      64 * i' + j' = 64 * i + j + 1 /\ j' <= 64
+  | Err k => get1 (rd_stream ws tb (64 * i + j)) = Err k
+  | Panic => False
+  end.
+Proof. exact rd_read_one_spec. Qed.
+
+(* BitReader::read: the only panic is read(0) standing exactly at the end of word-aligned data
+   after a seek (never the case in the decompressor: every read(code_len) follows a successful
+   read of the 4- or 5-bit length field, which leaves j >= 1) *)
+Theorem C03_word_read_bits : forall ws tb i j n,
+  words_ok ws -> j <= 64 -> tb <= 64 * Nlen ws -> 64 * i + j <= tb ->
+  match rd_read ws i j tb n with
+  | Ok (l, (i', j')) =>
+      get_bits n (rd_stream ws tb (64 * i + j)) = Ok (l, rd_stream ws tb (64 * i + j + n)) /\
+      64 * i' + j' = 64 * i + j + n /\ j' <= 64
+  | Err k => get_bits n (rd_stream ws tb (64 * i + j)) = Err k
+  | Panic => n = 0 /\ i = Nlen ws /\ j = 0 /\ tb = 64 * Nlen ws
+  end.
+Proof. exact rd_read_spec. Qed.
+
+Theorem C03_word_drain_empty_byte : forall ws tb i j,
+  words_ok ws -> j <= 64 -> tb <= 64 * Nlen ws -> tb mod 8 = 0 -> 64 * i + j <= tb ->
+  match rd_drain_empty_byte ws i j with
+  | Ok (i', j') =>
+      drain_pad (rd_stream ws tb (64 * i + j)) = Ok (rd_stream ws tb (64 * i' + j')) /\
+      j' <= 64 /\ (64 * i' + j') mod 8 = 0 /\ 64 * i' + j' <= tb
+  | Err k => drain_pad (rd_stream ws tb (64 * i + j)) = Err k
+  | Panic => False
+  end.
+Proof. exact rd_drain_empty_byte_spec. Qed.
+
+Theorem C03_word_read_aligned_bytes : forall ws tb i j n,
+  words_ok ws -> j <= 64 -> tb <= 64 * Nlen ws -> tb mod 8 = 0 -> 64 * i + j <= tb ->
+  match rd_read_aligned_bytes ws i j tb n with
+  | Ok (bs, (i', j')) =>
+      Reader.read_aligned (64 * i + j) n (rd_stream ws tb (64 * i + j))
+      = Ok (bs, rd_stream ws tb (64 * i + j + 8 * n)) /\
+      64 * i' + j' = 64 * i + j + 8 * n /\ j' < 64
+  | Err k => Reader.read_aligned (64 * i + j) n (rd_stream ws tb (64 * i + j)) = Err k
+  | Panic => False
+  end.
+Proof. exact rd_read_aligned_bytes_spec. Qed.
+
+(* what the writer drains, loaded into reader words, is the writer's bit string *)
+Theorem C03_word_writer_reader : forall w, wr_ok w -> wr_bit_size w mod 8 = 0 ->
+  let '(ws, tb) := bw_extend [] 0 (wr_drain_bytes w) in
+  bw_ok ws tb /\ bw_bits ws tb = wr_bits w /\ tb = wr_bit_size w.
+Proof. exact wr_drain_bw_roundtrip. Qed.
